@@ -83,7 +83,9 @@ def gen_op(rng, small=False):
         if f == 'f_dict':
             return dict(t='call', f=f, args=[rng.choice([0, 3, 5])], kw={})
         return dict(t='call', f=f, args=[rng.choice([1, 2, 3])], kw={})
-    rname = rng.choice(['Fib', 'Fib', 'Count', 'Tri', 'Held'] + ([] if small else ['Big']))
+    rname = rng.choice(['Fib', 'Fib', 'Count', 'Tri', 'Held', 'Free'] + ([] if small else ['Big']))
+    if rname == 'Free':   # recursion of length 0
+        return dict(t='iter', r='Free', args=[rng.choice([2, 7])], m=rng.choice([1, 2, 3, 4, 5]))
     if rname == 'Big':
         return dict(t='iter', r='Big', args=[rng.choice([1, 2])], m=rng.choice([1, 2, 3]))
     if rname == 'Held':
